@@ -82,6 +82,10 @@ def run(ctx):
     ctx.attempt(_keyless, ctx, rep)
     ctx.attempt(_mergedup_guard, ctx, rep)
     ctx.attempt(_mergedup_header, ctx, rep)
+    rep.rule('R9.17', 'the rows the groups are cut from are sorted ascending by the key: no sort applied in a constructor of petl.transform.reductions gets a reverse flag (arguments bound to the signature of sort, positional ones included)')
+    ctx.attempt(r917, ctx, rep)
+    rep.rule('R9.16', 'groups are cut from rows sorted with Comparable: its < is a strict order in which None equals None (so equal keys keep their input order) and == agrees with it (C04 R4.1 / R4.2)')
+    ctx.attempt(r916, ctx, rep)
     from .common import check_late_binding as _late, check_selector_truth as _seltruth
     rep.rule('R9.13', 'a value getter created in a loop over the aggregation specifications does not read the loop\'s variables late (it is called after the loop ended)')
     ctx.floor('functions_with_loops', ctx.attempt(_late, ctx, rep, 'R9.13', ctx.functions(['petl.transform.reductions', 'petl.util.base'])) or 0, 15)
@@ -109,6 +113,15 @@ def _key_chain(ctx, rep, ci, it):
             continue
         k = g.args[1]
         c = norm(g)[:70]
+        # a local bound once to the key expression is looked through
+        hops = 0
+        while isinstance(k, ast.Name) and k.id not in it.params and hops < 3:
+            binds = [n.value for n in own_nodes(it.node) if isinstance(n, ast.Assign) and len(n.targets) == 1 and
+                     isinstance(n.targets[0], ast.Name) and n.targets[0].id == k.id]
+            if len(binds) != 1:
+                break
+            k = binds[0]
+            hops += 1
         # `(lambda x: None) if key is None else key`: the constant key only stands in for a missing key
         if isinstance(k, ast.IfExp):
             t = norm(k.test)
@@ -681,3 +694,47 @@ def _paths_count(body, is_event):
     # a handler that swallows counts as the path "0 increments": only IndexError handlers are tolerated by the caller,
     # so ignore the handler paths here
     return {c for c in cont if c != 0} or cont, {t for t in term if t != 0}
+
+
+# ------------------------------------------------------------------------ R9.16
+def r916(ctx, rep):
+    from . import c04
+    from ..report import Report
+    sub = Report('C04', ctx.tier, ctx.root)
+    saved = ctx.report
+    ctx.report = sub
+    try:
+        c04.r41(ctx, sub)
+        c04.r42(ctx, sub)
+    finally:
+        ctx.report = saved
+    n = 0
+    for o in sub.obligations:
+        if o.module == 'petl.comparison':
+            n += 1
+            rep.add('R9.16', (o.module, o.qualname), o.construct, o.status, o.message, o.lineno, o.detail)
+    if n < 3:
+        raise AnalysisError('anchor vanished: only %d Comparable obligations' % n)
+
+
+# ------------------------------------------------------------------------ R9.17
+def r917(ctx, rep):
+    from .sortapp import sort_applications
+    n = 0
+    for fn in ctx.functions(['petl.transform.reductions']):
+        if fn.name != '__init__' or fn.cls is None:
+            continue
+        for app in sort_applications(ctx, fn):
+            n += 1
+            r = app.args.get('reverse')
+            c = norm(app.node)[:70]
+            if app.opaque:
+                rep.undecided('R9.17', fn, c, 'arguments of the sort are spread from something the analysis cannot see', app.node)
+            elif r is None or (isinstance(r, ast.Constant) and r.value is False):
+                rep.held('R9.17', fn, c, 'ascending', app.node)
+            else:
+                rep.violated('R9.17', fn, c,
+                             'the input is sorted with reverse=`%s` (argument bound by position or keyword to the signature of sort): '
+                             'whenever that value is true the groups come out in descending key order' % norm(r), app.node)
+    if n < 4:
+        raise AnalysisError('anchor vanished: only %d sort applications in the constructors of petl.transform.reductions' % n)
